@@ -288,11 +288,22 @@ def decorate_inv_source(d: Dict[str, Any]) -> str:
     return "".join(out)
 
 
+def decorate_partial_source(d: Dict[str, Any]) -> str:
+    """Source of a step that decorates a functools.partial object which binds an argument of an existing contracted function (or of
+    a method of an existing class): a callable of its own, not a layer of the decorator stack of what it binds."""
+    target = d["func"] if "cls" not in d else "{}.{}".format(d["cls"], d["member"])
+    deco = "require(lambda: HUB.cond({!r}, {{}}))".format(d["id"]) if d["role"] == "pre" else "ensure(lambda result: HUB.cond({!r}, {{}}))".format(d["id"])
+    return "PARTIAL_{i} = icontract.{deco}(functools.partial({t}))\n".format(i=d["id"], deco=deco, t=target)
+
+
 def step_source(step: Dict[str, Any]) -> str:
+    if "decorate_partial" in step:
+        return decorate_partial_source(step["decorate_partial"])
     return decorate_inv_source(step["decorate_inv"]) if "decorate_inv" in step else decorate_source(step["decorate"])
 
 
 def decoration_of(step: Dict[str, Any]) -> Optional[Dict[str, Any]]:
+    # (a decorated partial object is no decoration of anything that exists: every earlier entity is protected)
     return step.get("decorate") or step.get("decorate_inv")
 
 
@@ -394,6 +405,9 @@ def run_history(w, hist_index: int) -> None:
                 name = "decorate_inv:" + step["decorate_inv"]["inv"]["id"]
                 w.count("decorations_afterwards")
                 w.count("invariants_added_afterwards")
+            elif "decorate_partial" in step:
+                spec = None
+                name = "decorate_partial:" + step["decorate_partial"]["id"]
             elif "decorate" in step:
                 spec = None
                 name = "decorate:" + step["decorate"]["id"]
@@ -451,7 +465,7 @@ def run_history(w, hist_index: int) -> None:
                                     name, now_beh[i][:3], ent.name, ent.behaviour[i][3:], now_beh[i][3:]), case)
                     ent.behaviour = now_beh
             # record the new entity
-            if decoration_of(step) is not None:
+            if decoration_of(step) is not None or "decorate_partial" in step:
                 continue
             if "func" in step:
                 ent = Entity(name, {"members": [], "methodlike": bool(step.get("methodlike"))}, False)
@@ -637,6 +651,15 @@ def fixed_histories_shared_function():
         shared, cls("KA", [], [], ["m_s = f_shared"], ["m_s"]), cls("KU", [], [base_member]),
         cls("KB", ["KU"], [], ["m_s = f_shared"], ["m_s"]),
     ]
+    plain = {"func": {"name": "f_bound", "kind": "function", "async": False, "params": [prog.P("x")], "decos": [pre("rb"), post("eb")]}}
+    owner = cls("KM", [], [{"name": "m_s", "kind": "method", "async": False, "params": params, "decos": [pre("rm"), post("em")]}])
+    yield ("partial-objects-decorated-afterwards",), [
+        plain, owner, cls("KN", ["KM"], []),
+        {"decorate_partial": {"id": "xp1", "func": "f_bound", "role": "pre"}},
+        {"decorate_partial": {"id": "xp2", "func": "f_bound", "role": "post"}},
+        {"decorate_partial": {"id": "xp3", "cls": "KM", "member": "m_s", "role": "pre"}},
+        {"decorate_partial": {"id": "xp4", "cls": "KN", "member": "m_s", "role": "post"}},
+    ]
     yield ("module-level-function-used-by-a-class-with-stating-bases-first",), [
         shared, cls("KU", [], [base_member]), cls("KB", ["KU"], [], ["m_s = f_shared"], ["m_s"]),
         cls("KA", [], [], ["m_s = f_shared"], ["m_s"]), cls("KC", ["KU"], [], ["m_s = f_shared"], ["m_s"]),
@@ -697,6 +720,9 @@ def replay(case, w) -> None:
             if "decorate_inv" in step:
                 spec = None
                 name = "decorate_inv:" + step["decorate_inv"]["inv"]["id"]
+            elif "decorate_partial" in step:
+                spec = None
+                name = "decorate_partial:" + step["decorate_partial"]["id"]
             elif "decorate" in step:
                 spec = None
                 name = "decorate:" + step["decorate"]["id"]
@@ -730,7 +756,7 @@ def replay(case, w) -> None:
                 if now_beh != ent.behaviour:
                     w.violation(classify(hist[: step_no + 1], ent, step, "behaviour"), "behaviour of {} changed after defining {}".format(ent.name, name), case)
                     ent.behaviour = now_beh
-            if decoration_of(step) is not None:
+            if decoration_of(step) is not None or "decorate_partial" in step:
                 continue
             if "func" in step:
                 ent = Entity(name, {"members": [], "methodlike": bool(step.get("methodlike"))}, False)
